@@ -1,2 +1,7 @@
+pub mod c03;
+pub mod c06;
 pub mod c15;
+pub mod c17;
+pub mod queries;
 pub mod ws;
+pub mod wspace;
